@@ -925,7 +925,10 @@ def gen_extract(r, profile):
 		"dict_dtype": r.choice(["int8", "int8", "float32", "int64"]),
 		"modes": modes}
 	if profile == "counts" and S:
-		p["bw_style"] = r.choice(["fixed", "intervals"])
+		# bigwigs with positions without data are included: the returned
+		# signal is 0 there, and the count filters are judged on exactly
+		# those values (the generated track holds 0 at the gaps)
+		p["bw_style"] = r.choice(["fixed", "intervals", "gaps", "gaps"])
 	if (profile == "counts" and S) or (S and r.random() < 0.1):
 		glen = dict(zip(names, lens))
 		sig = make_signals(p["gseed"], [tuple(x) for x in p["chroms"]], S,
@@ -945,9 +948,6 @@ def gen_extract(r, profile):
 				p["max_counts"] = thr(r.choice([0.6, 0.8, 0.95]))
 			if r.random() < 0.3 and p["min_counts"] is not None:
 				p["min_counts"] = int(p["min_counts"])   # integer threshold
-	if p["min_counts"] is not None or p["max_counts"] is not None:
-		if p["bw_style"] == "gaps":
-			p["bw_style"] = "intervals"     # sums over missing data undefined
 	if profile == "n-loci" or r.random() < 0.1:
 		glen = dict(zip(names, lens))
 		sig = make_signals(p["gseed"], [tuple(x) for x in p["chroms"]], S,
@@ -1311,7 +1311,11 @@ def run_meme_unit(unit, rec):
 						c += 1
 						r = gen.pyrng(ID, "meme-style", mseed, n, url, between,
 							c)
-						base = {"mseed": mseed, "n": n, "url": url,
+						# consecutive files at the SAME path differ in content
+						# (other motif values and names): a result that is
+						# remembered per path instead of read shows at once
+						base = {"mseed": mseed + 7919 * (c % 3), "n": n,
+							"url": url,
 							"between": between, "final": final, "eol": eol,
 							"tws": tws, "mlblank": mlblank, "header": header,
 							"ws": r.choice(["  ", " ", "\t", " \t "]),
